@@ -358,7 +358,7 @@ def compare(loaded, model: Model, contracts: Dict[str, Dict[str, Any]], call: Di
                 ok = type(exc) is hub.errclasses.get(ref) and ("D:" + ref + ":") in str(exc)
             elif err == "instance":
                 ok = exc is hub.errinsts.get(ref)
-            elif err == "factory":
+            elif err in ("factory", "method"):
                 made = hub.factory_made.get(ref, [])
                 ok = (len(made) == 1 or (exp.has_dups and len(made) >= 1)) and exc is made[-1]
             if not ok:
